@@ -95,6 +95,24 @@ def replay_grid(rec, ctx):
         viol.append({"sig": f"grid:{last}:total-volume-is-not-the-sum-of-voxel-volumes", "detail": f"{grid.total_volume!r} vs {want_total!r} after {json.dumps(h)}"})
     if len(grid) != len(polys) or grid.count != len(polys) or len(list(grid)) != len(polys):
         viol.append({"sig": f"grid:{last}:count-differs", "detail": json.dumps(h)})
+    # entry i of the grid-level estimate belongs to voxel i, whichever voxels are attached to the scene graph right now:
+    # exact for a constant, and for f = r within 6 standard errors of voxel i's own centroid radius
+    try:
+        from raysect.core.math.random import seed as _seed
+        const = [float(x) for x in grid.emissivities_from_function(lambda r, phi, z: 7.25, 20)]
+        if const != [7.25] * len(polys):
+            viol.append({"sig": f"grid:{last}:emissivities-not-exact-for-constants", "detail": f"{const} after {json.dumps(h)}"})
+        _seed(4242)
+        n = 4000
+        est = [float(x) for x in grid.emissivities_from_function(lambda r, phi, z: r, n)]
+        for i, (p, e) in enumerate(zip(polys, est)):
+            rs = [q[0] for q in p]
+            tol = 6.0 * ((max(rs) - min(rs)) / 2.0) / math.sqrt(n)
+            if abs(e - ctx["centroid_r"][i]) > tol:
+                viol.append({"sig": f"grid:{last}:emissivity-entry-is-not-the-voxels-own-estimate", "detail": f"entry {i} = {e!r}, voxel {i} has centroid radius {ctx['centroid_r'][i]!r} (tolerance {tol:.3g}); all entries {est} after {json.dumps(h)}"})
+                break
+    except Exception as ex:      # noqa: BLE001
+        viol.append({"sig": f"grid:{last}:emissivities_from_function-raised-{type(ex).__name__}", "detail": repr(ex)[:200]})
     att = sorted(i for i, vx in enumerate(grid) if vx.parent is grid)
     if att != sorted(rec["attached"]):
         viol.append({"sig": f"grid:{last}:attached-voxels-differ", "detail": f"{att} vs {sorted(rec['attached'])} after {json.dumps(h)}"})
@@ -140,8 +158,8 @@ def run(v):
     core.tlc_must_pass(resg, "VoxelGrid")
     v.add_tlc(resg, "VoxelGrid")
     gedges = [r for r in resg.records if "h" in r]
-    three = [r for r in cases if r["rot"] == 0 and not r["rev"]][:3]
-    ctxg = {"polys": [r["vertices"] for r in three], "volumes_over_pi": [float(_fr(r["volume_over_pi"])) for r in three]}
+    three = sorted([r for r in cases if r["rot"] == 0 and not r["rev"] and r["poly"] in (1, 2, 7)], key=lambda r: r["poly"])     # centroid radii 7/3, 7/2, ~10.7
+    ctxg = {"polys": [r["vertices"] for r in three], "volumes_over_pi": [float(_fr(r["volume_over_pi"])) for r in three], "centroid_r": [float(_fr(r["cr"])) for r in three]}
     outg = core.fan_out("mbt.c17", "replay_grid", gedges, ctxg)
     for r, vs in zip(gedges, outg):
         for x in vs:
